@@ -17,7 +17,7 @@ from dlv.core import ShardCtx, ShardResult
 PROPERTY = 'C20'
 LEVEL = 'exploration'
 RULE = ('programs of 1..40 operations over {read(n), read(-1), readall, seek SET/CUR/END (negative, beyond end), '
-        'tell, peek(n)} on windows (offset,size) inside files of 0..6000 bytes (plus 16384-byte-buffer production '
+        'tell, peek(n), the shared handle moved by another user, the reader dropped and a new window opened on the same handle} on windows (offset,size) inside files of 0..6000 bytes (plus 16384-byte-buffer production '
         'geometry on 40-200 kB files), buffersize 1..N dividing and not dividing the window, max_buffers 2..5; '
         'underlying reader is a real file handle or BytesIO. A case is non-trivial when the program performed at '
         'least one data-returning operation with a non-empty expected result; distinct = distinct '
@@ -27,7 +27,7 @@ ASSUMPTIONS = [
     'windows lie inside the underlying file and size is explicit (the property quantifies over explicit sizes)',
     'peek(n) is required to return a prefix-correct result of at least min(n, remaining) bytes; extra bytes are not judged',
 ]
-REQUIRED_COUNTERS = ['ops.read', 'ops.peek', 'ops.seek', 'ops.readall', 'evictions_observed', 'invariant_checks']
+REQUIRED_COUNTERS = ['ops.disturb', 'ops.rebind', 'ops.read', 'ops.peek', 'ops.seek', 'ops.readall', 'evictions_observed', 'invariant_checks']
 
 
 def shards(tier: str) -> int:
@@ -83,6 +83,14 @@ class Spy:
         self.log.append(('read',) + a + (len(rv),))
         return rv
 
+    def close(self):
+        self.log.append(('close',))
+        return self.raw.close()
+
+    @property
+    def closed(self):
+        return self.raw.closed
+
 
 def make_content(rng, length: int, style: int) -> bytes:
     if style == 0:
@@ -115,7 +123,16 @@ def gen_case(rng, big: bool) -> dict:
         amount = rng.choice([0, 1, 2, bs - 1, bs, bs + 1, 2 * bs, 3 * bs + 2, size, size + 1,
                              rng.randrange(0, span + 2), rng.randrange(0, min(span, 4 * bs) + 2)])
         amount = max(0, amount)
-        if k < 0.30:
+        if flen and k < 0.05:
+            # another user of the same file handle moves it (the handle is shared: the media-file editor
+            # reads box headers from the handle its windowed readers wrap)
+            ops.append(['disturb', rng.randrange(0, flen + 1), rng.choice([0, 1, bs, 17])])
+        elif flen and k < 0.09:
+            # the reader is dropped and a new window is opened on the same handle, as a loop over the
+            # fragments of a file does
+            o2 = rng.randrange(0, flen + 1)
+            ops.append(['rebind', o2, rng.randrange(0, flen - o2 + 1), rng.random() < 0.5])
+        elif k < 0.30:
             ops.append(['read', amount])
         elif k < 0.50:
             ops.append(['peek', max(1, amount)])
@@ -203,6 +220,26 @@ def run_case(case: dict, res: ShardResult, BufferedReader, tmpdir: str, rng_mod)
                     if rd.tell() != p0:
                         problem = ('peek-moves-position', f'peek({n}) moved position {p0} -> {rd.tell()}')
                     nontrivial = nontrivial or bool(want)
+                elif name == 'disturb':
+                    raw.seek(op[1])
+                    raw.read(op[2])
+                    res.count('ops.disturb')
+                    before = len(rd.buffers)
+                elif name == 'rebind':
+                    import gc
+                    if op[3]:
+                        rd = None
+                        gc.collect()
+                    offset, size = op[1], op[2]
+                    window = content[offset:offset + size]
+                    model = Model(window)
+                    rd = BufferedReader(spy, buffersize=bs, offset=offset, size=size, max_buffers=case['max_buffers'])
+                    gc.collect()
+                    res.count('ops.rebind')
+                    before = 0
+                    if getattr(raw, 'closed', False):
+                        problem = ('dropping-a-reader-closes-the-shared-file',
+                                   'the underlying file object is closed after an earlier reader over it was dropped')
                 elif name == 'tell':
                     got = rd.tell()
                     res.count('ops.tell')
